@@ -20,6 +20,9 @@ impl OutputFormat for Bin {
     }
 
     fn to_bytes(&self, buf: &crate::Buffer, options: &SaveOptions) -> EngineResult<Vec<u8>> {
+        if buf.get_width() % 2 != 0 {
+            return Err(anyhow::anyhow!("Only even widths are supported by this format."));
+        }
         let mut result = Vec::new();
 
         for y in 0..buf.get_height() {
